@@ -412,12 +412,34 @@ def _worker_init():
         enable_audit()
 
 
+class ScenarioTimeout(KeyboardInterrupt):
+    """Raised by the wall-clock guard of a scenario (a KeyboardInterrupt: no `except Exception` swallows it)."""
+
+
+SCENARIO_TIMEOUT_S = float(os.environ.get('VERIF_SCENARIO_TIMEOUT', '120'))
+
+
 def _worker_run(arg):
+    """One scenario under a wall-clock guard: the op budgets bound every evaluation of the unchanged code to well under a
+    second (a few seconds for the 10000-element cap scenarios); a change that computes outside the budget (a native power
+    of huge ints, an unbounded loop) must not hang the check."""
+    import signal
     tid, scn = arg
+
+    def on_alarm(sig, frm):
+        raise ScenarioTimeout()
+    old = signal.signal(signal.SIGALRM, on_alarm)
+    signal.setitimer(signal.ITIMER_REAL, SCENARIO_TIMEOUT_S)
     try:
         return run_scenario(scn, tid)
+    except ScenarioTimeout:
+        TRACER.active = False
+        return {'tid': tid, 'harness_error': 'TIMEOUT', 'timeout': True, 'sources': [(c.get('src'), c.get('max')) for c in scn.get('calls', [])][:6]}
     except BaseException as e:   # noqa
         return {'tid': tid, 'harness_error': ''.join(traceback.format_exception_only(type(e), e))[-500:]}
+    finally:
+        signal.setitimer(signal.ITIMER_REAL, 0)
+        signal.signal(signal.SIGALRM, old)
 
 
 def run_scenarios(scns, start_tid=1, procs=16):
